@@ -761,7 +761,7 @@ where
 
         match elems.as_slice() {
             [] => {
-                if let Some(slots) = slots {
+                if let Some(slots) = slots.filter(|_| is_component) {
                     *slots
                 } else {
                     Expr::Lit(Lit::Null(Null { span: DUMMY_SP }))
@@ -831,14 +831,14 @@ where
                         self.wrap_children(elems, slot_flag, slots)
                     }
                 }
-                expr @ Expr::Fn(..) | expr @ Expr::Arrow(..) => Expr::Object(ObjectLit {
+                expr @ (Expr::Fn(..) | Expr::Arrow(..)) if is_component => Expr::Object(ObjectLit {
                     span: DUMMY_SP,
                     props: vec![PropOrSpread::Prop(Box::new(Prop::KeyValue(KeyValueProp {
                         key: PropName::Ident(quote_ident!("default")),
                         value: Box::new(expr.clone()),
                     })))],
                 }),
-                Expr::Object(ObjectLit { props, .. }) => {
+                Expr::Object(ObjectLit { props, .. }) if is_component => {
                     let mut props = props.clone();
                     if self.options.optimize {
                         props.push(PropOrSpread::Prop(Box::new(Prop::KeyValue(KeyValueProp {
